@@ -41,6 +41,9 @@ def _open_for_write(c: ast.Call) -> Optional[ast.AST]:
             return c.args[0] if c.args else None
     if isinstance(c.func, ast.Attribute) and c.func.attr in ("write_bytes", "write_text"):
         return c.func.value
+    if d.split(".")[-1] in ("NamedTemporaryFile", "mkstemp", "TemporaryFile", "SpooledTemporaryFile"):
+        # a temporary file created for writing: the call itself stands for its (generated, unique) path
+        return c
     return None
 
 
@@ -416,7 +419,7 @@ def k_rules(p: Project, rep: Report):
                 continue
             src = origins(q, cfg, pth, i, params)
             srcs_all |= src
-            if not any(any(mk in s for mk in UNIQUE_MARKS) for s in src):
+            if not any(any(mk in s for mk in UNIQUE_MARKS) for s in src) and not ("NamedTemporaryFile(" in wt or "mkstemp(" in wt):
                 unique = False
             # next to the cache: built from the cache path or from its directory
             sd = None
@@ -441,7 +444,19 @@ def k_rules(p: Project, rep: Report):
                 ok = False
                 for rn, rc, (s_, d_) in replaces:
                     k = q.index_of(rn.id)
-                    if k is not None and k > i and _rtext(q, cfg, s_, k) == wt and is_cache(_rtext(q, cfg, d_, k)):
+                    st_ = _rtext(q, cfg, s_, k) if k is not None else None
+                    if st_ is not None and st_.endswith(".name"):
+                        # <temporary file object>.name is the path of that file; the object is usually the `as` name
+                        # of the with-statement that created it
+                        base_ = st_[: -len(".name")]
+                        if base_ == wt:
+                            st_ = wt
+                        else:
+                            for w_ in [x for x in ast.walk(fn) if isinstance(x, ast.With)]:
+                                for it_ in w_.items:
+                                    if isinstance(it_.optional_vars, ast.Name) and it_.optional_vars.id == base_ and _rtext(q, cfg, it_.context_expr, k) == wt:
+                                        st_ = wt
+                    if k is not None and k > i and st_ == wt and is_cache(_rtext(q, cfg, d_, k)):
                         ok = True
                 if not ok:
                     renamed = False
